@@ -217,7 +217,10 @@ func seedsOf(sc *Scn) [][]byte {
 // alone, outside any route list.)
 var loadedCache = map[string]*mrun.Loaded{}
 
-func yesSomewhere(sp mrun.Spec, s []byte) bool {
+func yesSomewhere(sp mrun.Spec, s []byte) bool { return saysSomewhere(sp, s, "yes") }
+
+// saysSomewhere: the matcher gives verdict v on some prefix of s.
+func saysSomewhere(sp mrun.Spec, s []byte, v string) bool {
 	key := sp.String()
 	l := loadedCache[key]
 	if l == nil {
@@ -229,7 +232,7 @@ func yesSomewhere(sp mrun.Spec, s []byte) bool {
 	}
 	for i := 1; i <= len(s); i++ {
 		cx, _ := mrun.Conn(s[:i], false)
-		if l.Eval(cx).V == "yes" {
+		if l.Eval(cx).V == v {
 			return true
 		}
 	}
@@ -240,14 +243,23 @@ func yesSomewhere(sp mrun.Spec, s []byte) bool {
 // is left of it behind the PROXY header).  With overlapping matchers the router may, by
 // design, run a later route that is already decided while an earlier one still needs data,
 // so the outcome legitimately depends on the segmentation; those streams are not judged.
+// The same holds when one matcher fails with an error on some prefix (which ends matching,
+// fail closed) while another can say yes: whether the error or the yes comes first depends on
+// how much of the stream has arrived.
 func unambiguous(sc *Scn, stream, seed []byte) bool {
-	n := 0
+	n, e := 0, 0
 	for _, sp := range sc.Specs {
+		if sc.PP && yesSomewhere(sp, stream) {
+			return false // overlaps with the proxy_protocol matcher of the first route
+		}
 		if yesSomewhere(sp, seed) || (sc.PP && yesSomewhere(sp, stream)) {
 			n++
 		}
+		if saysSomewhere(sp, seed, "err") || (sc.PP && saysSomewhere(sp, stream, "err")) {
+			e++
+		}
 	}
-	return n <= 1
+	return n <= 1 && (e == 0 || n == 0)
 }
 
 func run(tier string, scAny any, rep *runner.Report) {
